@@ -1,6 +1,6 @@
 (* C04 — the registry is a faithful record of what the network presented and reported. *)
 From Coq Require Import List NArith ZArith Bool String.
-From AMS Require Import Models GatewayFacts GatewayInv GatewaySteps.
+From AMS Require Import Models Codec GatewayFacts GatewayInv GatewaySteps GatewayReg.
 Import ListNotations.
 Local Open Scope Z_scope.
 
@@ -128,6 +128,26 @@ Proof.
 Qed.
 Print Assumptions C04_nodes_well_formed.
 
+(* "what must not change": for every line, state, oracle and fault stream, one
+   listen step leaves the record of every node other than the sender — and other
+   than the id an id request hands out — exactly as it was *)
+Theorem C04_other_nodes_untouched :
+  forall bat vlt now line s k,
+    (forall m, decode (proto_of (s_w s)) line = DecOk m -> k <> m_node m) ->
+    k <> next_id (keys (s_w s)) ->
+    dget Z.eqb (w_nodes (s_w (snd (listen_step bat vlt now line s)))) k = dget Z.eqb (w_nodes (s_w s)) k.
+Proof. exact rg_listen_step. Qed.
+Print Assumptions C04_other_nodes_untouched.
+
+(* ... and over every history (commands sent by the application never change a
+   record at all) *)
+Theorem C04_untouched_history :
+  forall bat vlt now k ops w,
+    untouched bat vlt now k w ops ->
+    dget Z.eqb (w_nodes (run_ops bat vlt now w ops)) k = dget Z.eqb (w_nodes w) k.
+Proof. exact untouched_history. Qed.
+Print Assumptions C04_untouched_history.
+
 (* which (class, method) pair serves which handler name: the bodies above are the
    ones the generated dispatch tables reach *)
 Theorem C04_tables :
@@ -155,3 +175,13 @@ Example C04_examples :
   /\ show_world w4 = ex_lit "pv=None proto=3:1.4 metric=1 nodes= k5{n 5 17 3:2.0 0: 0: 55 0 0 0 k1{c 1 6 4:temp v0=4:20.5}} ibuf= sbuf="
   /\ map (fun kn => List.length (n_children (snd kn))) (w_nodes (fst (fst (ex_step w4 "5;255;0;0;17;2.1")))) = [0%nat].
 Proof. vm_compute. repeat split. Qed.
+
+(* non-vacuity of C04_untouched_history: node 5 is untouched by traffic of node 6 *)
+Example C04_untouched_example :
+  let w1 := fst (fst (ex_step (init_world true) "5;255;0;0;17;2.0")) in
+  untouched ex_bat ex_vlt 0 5 w1
+    [ORecv (lit "6;255;0;0;17;2.0") []; ORecv (lit "6;1;0;0;6;t") []; OSend (mk_msg 5 1 1 0 0 (lit "1")) true []].
+Proof.
+  cbn [untouched]. split; [|split; [|split; [intros []|exact I]]].
+  all: vm_compute; intros [[m [E K]]|K]; [injection E as <-; vm_compute in K; discriminate K|discriminate K].
+Qed.
